@@ -50,7 +50,7 @@ def run(tier: str) -> int:
     exf = ex.sep_tables(wd)   # the repository's example catalogue (5-8 nodes), tables by SepFile.tla
     recs += exf["recs"]
     bc5 = sc.tables_extra(wd, "BC5")[0]   # 5-node ADMGs around a chain of three bidirected colliders (SepExtra.tla)
-    recs += bc5["recs"]
+    recs += bc5["recs"] if tier == "thorough" else bc5["recs"][::3]   # quick: every third graph (the enumeration is exponential)
     n_orders = 3
     stats, fails = sc.replay(wd, "ci", recs, n_orders)
     seen = set()
@@ -91,7 +91,7 @@ def run(tier: str) -> int:
         "history_replays": stats.get("grow_steps", 0),
         "distinct_nontrivial": sum(1 for r in recs if r["g"]["b"] and any(m[2] not in (0, 99) for m in r["min"])),
         "rule": "one call = (ADMG, size limit k, retention policy, insertion order); families: all 3-node ADMGs, all topologically "
-                "numbered 4-node ADMGs, all 1024 topologically numbered 5-node DAGs, the 744 graphs of family BC5 (5-node ADMGs around a chain of three bidirected colliders), seeded 5-node ADMGs (thorough: all labelled "
+                "numbered 4-node ADMGs, all 1024 topologically numbered 5-node DAGs, family BC5 (744 five-node ADMGs around a chain of three bidirected colliders; quick: every third), seeded 5-node ADMGs (thorough: all labelled "
                 "4-node ADMGs, 6380 sparse 5-node ADMGs with one bidirected edge); the second insertion order replays SepMachine's "
                 "Grow action on one object (list, add an edge in place, list again); expected: exactly one canonical, "
                 "true, minimum-size judgement for every pair whose minimum separator size (MinSizes in Separation.tla) "
